@@ -257,7 +257,9 @@ func (i *interpreter) doAssert(id string, c value, pos string, hunt bool) {
 				rec.Cross = map[string]string{}
 				for n, rr := range m.S.CrossCheck(neg) {
 					rec.Cross[n] = rr.String()
-					if rr != smt.Unsat {
+					// a mirror that answers sat contradicts the primary: undischarged.  A mirror that times out is recorded
+					// (evidence: cross_unknown) but does not contradict anything.
+					if rr == smt.Sat {
 						rec.Result = "unknown"
 						rec.Why = fmt.Sprintf("solver disagreement: z3=unsat %s=%s", n, rr)
 					}
